@@ -58,6 +58,7 @@ RULE = ("wire: Hypothesis draws an encoding from a wire-level grammar of the byt
         "registered class) and is not a complete valid encoding (loadb raises or does not consume it exactly), or "
         "is a truncation / bit flip of a valid encoding; for Atheris only the coverage-distinct corpus units are "
         "counted, by the same rule. Distinct by input bytes + entry point.")
+RULE += (" " + 'The crafted table includes sets and map keys of 1024..16384 distinct composite elements (registered objects whose one field holds an int, a list, a set, a map or another object): insertion must stay within the linear work bound.')
 ASSUMPTIONS = [
     "work is measured as executed source lines of mpgameserver/serializable.py (sys.monitoring LINE events); "
     "C-level work inside struct/bytes/str/cryptography is bounded by the input length by construction and is not counted",
